@@ -13,6 +13,18 @@ From RipV Require Import Base.Prelude Model.Frames Model.Log Model.ContStore Mod
 Definition create_save_failed (ar : list N) : list mstep :=
   [MLock; MAlloc; MLogAppendFixed 0 EContinuityCreated ar; MSidecar; MBcast; MIndexInsert; MUnlock].
 
+(* any creating call cut at its failing `save_index(..)?`: everything up to and including the in-memory insert ran, then the
+   `?` returns and the guard is dropped.  fail_save (create_prog ar) = create_save_failed ar; branch / handoff likewise (their
+   lineage frame is never written).  Well-formed programs of Model/ContStore.v (the phase automaton admits `unlock with the
+   child's counter never recorded` since this round), so c01_valid_all_schedules / c01_restart quantify over histories with
+   failed index saves at any creating call, interleaved with anything. *)
+Fixpoint fail_save (prog : list mstep) : list mstep :=
+  match prog with
+  | [] => []
+  | MIndexInsert :: _ => [MIndexInsert; MUnlock]
+  | m :: r => m :: fail_save r
+  end.
+
 (* the in-memory index moves, continuities/index.json does not *)
 Definition mem_only (d : dstate) (st : state) (ix : index) : dstate :=
   {| d_st := st; d_ws := d_ws d; d_file := d_file d; d_mem := ix |}.
